@@ -67,6 +67,14 @@ def gen_wf_mrs(rng, max_nouns=2, shuffle_vars=False, shuffle_rels=False):
             rels.append({"pred": rng.choice(QUANTS), "label": ql,
                          "args": [["ARG0", x], ["RSTR", hole], ["BODY", body]]})
             hcons.append([hole, "qeq", lbl])
+            # degree modifier of the quantifier ("nearly every"): shares its label, ARG1 unbound
+            if rng.random() < 0.15:
+                e4 = vg.new("e")
+                dm = {"pred": "_nearly_x_deg", "label": ql, "args": [["ARG0", e4], ["ARG1", vg.new("u")]]}
+                if rng.random() < 0.5:
+                    rels.insert(len(rels) - 1, dm)
+                else:
+                    rels.append(dm)
     # main verb
     e = vg.new("e")
     vlbl = vg.new("h")
